@@ -163,7 +163,7 @@ impl Monitor for C20 {
                     // swaps before the trade-enable time are refused by the program regardless of the quote
                     let enabled = oracle.map(|o| o.trade_enable_timestamp <= now).unwrap_or(true);
                     // the SDK panics are failures of the SDK
-                    let r = std::panic::catch_unwind(std::panic::AssertUnwindSafe(|| sdk::compute_swap(a.amount_for_curve(pre, &pool, ev.clock.epoch), a.limit, pool_facade(&pool), ts, a.a_to_b, a.is_input, now, adaptive)));
+                    let r = crate::rt::guarded((|| sdk::compute_swap(a.amount_for_curve(pre, &pool, ev.clock.epoch), a.limit, pool_facade(&pool), ts, a.a_to_b, a.is_input, now, adaptive)));
                     let r = match r {
                         Ok(x) => x,
                         Err(_) => Err("SDK panicked"),
@@ -243,7 +243,7 @@ impl Monitor for C20 {
                         let paid = token_amount(pre, &uin) as i128 - token_amount(post, &uin) as i128;
                         let got = token_amount(post, &uout) as i128 - token_amount(pre, &uout) as i128;
                         if a.is_input {
-                            let q = std::panic::catch_unwind(std::panic::AssertUnwindSafe(|| sdk::swap_quote_by_input_token(a.amount, a.a_to_b, slip, pool_facade(&pool), oracle, tas, now, fa, fb)));
+                            let q = crate::rt::guarded((|| sdk::swap_quote_by_input_token(a.amount, a.a_to_b, slip, pool_facade(&pool), oracle, tas, now, fa, fb)));
                             match q {
                                 Ok(Ok(q)) => {
                                     if q.token_min_out > q.token_est_out {
@@ -264,7 +264,7 @@ impl Monitor for C20 {
                                 _ => out.push(viol("sdk_fails_where_program_succeeds", ev.idx, "swap_quote_by_input_token failed on a swap the program executed".into())),
                             }
                         } else {
-                            let q = std::panic::catch_unwind(std::panic::AssertUnwindSafe(|| sdk::swap_quote_by_output_token(a.amount, !a.a_to_b, slip, pool_facade(&pool), oracle, tas, now, fa, fb)));
+                            let q = crate::rt::guarded((|| sdk::swap_quote_by_output_token(a.amount, !a.a_to_b, slip, pool_facade(&pool), oracle, tas, now, fa, fb)));
                             match q {
                                 Ok(Ok(q)) => {
                                     if q.token_max_in < q.token_est_in {
@@ -296,9 +296,9 @@ impl Monitor for C20 {
                     let fa = sdk_fee(pre, &pool.mint_a, ev.clock.epoch);
                     let fb = sdk_fee(pre, &pool.mint_b, ev.clock.epoch);
                     let r_ok = if inc {
-                        std::panic::catch_unwind(std::panic::AssertUnwindSafe(|| sdk::increase_liquidity_quote(liq, 0, pool.sqrt_price, pos.lower, pos.upper, fa, fb).is_ok())).unwrap_or(false)
+                        crate::rt::guarded((|| sdk::increase_liquidity_quote(liq, 0, pool.sqrt_price, pos.lower, pos.upper, fa, fb).is_ok())).unwrap_or(false)
                     } else {
-                        std::panic::catch_unwind(std::panic::AssertUnwindSafe(|| sdk::decrease_liquidity_quote(liq, 0, pool.sqrt_price, pos.lower, pos.upper, fa, fb).is_ok())).unwrap_or(false)
+                        crate::rt::guarded((|| sdk::decrease_liquidity_quote(liq, 0, pool.sqrt_price, pos.lower, pos.upper, fa, fb).is_ok())).unwrap_or(false)
                     };
                     cov.eval(format!("{}|program_overflow={:?}|sdk_ok={}", name, code, r_ok));
                     cov.probe("program_rejected_amounts_as_overflowing");
@@ -321,7 +321,7 @@ impl Monitor for C20 {
                     let db = (token_amount(post, &ub) as i128 - token_amount(pre, &ub) as i128).abs();
                     cov.eval(format!("{}|fee_a={}|fee_b={}", name, fa.is_some(), fb.is_some()));
                     if inc {
-                        match std::panic::catch_unwind(std::panic::AssertUnwindSafe(|| sdk::increase_liquidity_quote(liq, slip, pool.sqrt_price, pos.lower, pos.upper, fa, fb))) {
+                        match crate::rt::guarded((|| sdk::increase_liquidity_quote(liq, slip, pool.sqrt_price, pos.lower, pos.upper, fa, fb))) {
                             Ok(Ok(q)) => {
                                 if q.token_max_a < q.token_est_a || q.token_max_b < q.token_est_b {
                                     out.push(viol("slippage_on_wrong_side", ev.idx, format!("increase quote max {} / {} below estimate {} / {}", q.token_max_a, q.token_max_b, q.token_est_a, q.token_est_b)));
@@ -335,7 +335,7 @@ impl Monitor for C20 {
                             _ => out.push(viol("sdk_fails_where_program_succeeds", ev.idx, format!("increase_liquidity_quote failed for L={} on {}..{}", liq, pos.lower, pos.upper))),
                         }
                     } else {
-                        match std::panic::catch_unwind(std::panic::AssertUnwindSafe(|| sdk::decrease_liquidity_quote(liq, slip, pool.sqrt_price, pos.lower, pos.upper, fa, fb))) {
+                        match crate::rt::guarded((|| sdk::decrease_liquidity_quote(liq, slip, pool.sqrt_price, pos.lower, pos.upper, fa, fb))) {
                             Ok(Ok(q)) => {
                                 if q.token_min_a > q.token_est_a || q.token_min_b > q.token_est_b {
                                     out.push(viol("slippage_on_wrong_side", ev.idx, format!("decrease quote min {} / {} above estimate {} / {}", q.token_min_a, q.token_min_b, q.token_est_a, q.token_est_b)));
